@@ -11,6 +11,7 @@ import (
 	"crypto/x509/pkix"
 	"encoding/pem"
 	"math/big"
+	"net"
 	"sync"
 	"time"
 
@@ -122,7 +123,8 @@ func (ca *CA) Leaf(o LeafOpts) tls.Certificate {
 		NotAfter:     na,
 		KeyUsage:     x509.KeyUsageDigitalSignature | x509.KeyUsageKeyEncipherment,
 		ExtKeyUsage:  []x509.ExtKeyUsage{x509.ExtKeyUsageServerAuth, x509.ExtKeyUsageClientAuth},
-		DNSNames:     o.Names,
+		DNSNames:     dnsOnly(o.Names),
+		IPAddresses:  ipsOnly(o.Names),
 	}
 	if o.Ballast > 0 {
 		b := make([]byte, o.Ballast)
@@ -167,4 +169,24 @@ func Fix() *Fixtures {
 		fix = f
 	})
 	return fix
+}
+
+func dnsOnly(names []string) []string {
+	var out []string
+	for _, n := range names {
+		if net.ParseIP(n) == nil {
+			out = append(out, n)
+		}
+	}
+	return out
+}
+
+func ipsOnly(names []string) []net.IP {
+	var out []net.IP
+	for _, n := range names {
+		if ip := net.ParseIP(n); ip != nil {
+			out = append(out, ip)
+		}
+	}
+	return out
 }
